@@ -56,7 +56,14 @@ func localRpcSetup(s *rt.Sim, tier string) func() {
 		// tagging servers
 		queryCounter := int64(0)
 		lsqCfg := localstatequery.NewConfig(
-			localstatequery.WithAcquireFunc(func(localstatequery.CallbackContext, localstatequery.AcquireTarget, bool) error { return nil }),
+			localstatequery.WithAcquireFunc(func(ctx localstatequery.CallbackContext, target localstatequery.AcquireTarget, re bool) error {
+				// the application refuses the points of a fork it does not have (F13): the protocol's
+				// ordinary MsgFailure answer
+				if p, ok := target.(localstatequery.AcquireSpecificPoint); ok && p.Point.Slot >= 10000 {
+					return localstatequery.ErrAcquireFailurePointNotOnChain
+				}
+				return nil
+			}),
 			localstatequery.WithReleaseFunc(func(localstatequery.CallbackContext) error { return nil }),
 			localstatequery.WithQueryFunc(func(ctx localstatequery.CallbackContext, q localstatequery.QueryWrapper) (any, error) {
 				queryCounter++
@@ -137,7 +144,35 @@ func localRpcSetup(s *rt.Sim, tier string) func() {
 				return
 			}
 		case "lsq":
-			if err := cConn.LocalStateQuery().Client.AcquireVolatileTip(); err != nil {
+			q := cConn.LocalStateQuery().Client
+			// "across acquire, re-acquire and release" includes acquisitions the server refuses:
+			// (1) a refused first acquire, (2) a refused re-acquire (which releases the client);
+			// in both cases the call gets its own answer (the failure) and the next acquisition works
+			pre := rt.Choose("op.x", 4)
+			bad := samplePoint(9000 + uint64(rt.Choose("op.x", 5)))
+			refused := ""
+			if pre == 3 {
+				if err := q.AcquireVolatileTip(); err != nil {
+					return
+				}
+			}
+			if pre >= 2 {
+				refused = "first acquire"
+				if pre == 3 {
+					refused = "re-acquire"
+				}
+				rt.Hit("rpc.lsq-refused-" + refused)
+				err := q.Acquire(&bad)
+				if !errors.Is(err, localstatequery.ErrAcquireFailurePointNotOnChain) {
+					rt.Violate("C25/reply-not-own/lsq-acquire", "lsq: the server refused the point of a %s (MsgFailure, point not on chain) but the call returned %v (client errors %v, server errors %v)", refused, err, cw.errs, sw.errs)
+					return
+				}
+			}
+			if err := q.AcquireVolatileTip(); err != nil {
+				if refused != "" {
+					sleep(time.Second)
+					rt.Violate("C25/error-in-conforming-use/lsq", "lsq: after a refused %s (answered with MsgFailure) the next AcquireVolatileTip failed: %v (client errors %v, server errors %v)", refused, err, cw.errs, sw.errs)
+				}
 				return
 			}
 		}
